@@ -8,6 +8,7 @@ from typing import TYPE_CHECKING, Final, NamedTuple, TypedDict, cast
 from ..pyutils import inspect, merge_kwargs
 from ..type import (
     GraphQLArgument,
+    GraphQLDefaultInput,
     GraphQLDirective,
     GraphQLEnumType,
     GraphQLEnumValue,
@@ -141,6 +142,19 @@ class ConfigMapperMap(TypedDict, total=False):
     SCHEMA: SchemaConfigMapper
 
 
+def copy_default_input(
+    default: GraphQLDefaultInput | None,
+) -> GraphQLDefaultInput | None:
+    """Copy a default value without its memoized coerced value.
+
+    The coerced value depends on the mapped types (an input object type may have
+    gained fields with default values), so it must not be carried over.
+    """
+    if default is None:
+        return None
+    return GraphQLDefaultInput(value=default.value, literal=default.literal)
+
+
 def map_schema_config(
     schema_config: GraphQLSchemaKwargs,
     config_mapper_map_fn: Callable[[MappedSchemaContext], ConfigMapperMap],
@@ -242,7 +256,9 @@ def map_schema_config(
         mapper = config_mapper_map.get(SchemaElementKind.ARGUMENT)
         for arg_name, arg in argument_map.items():
             mapped_arg = merge_kwargs(
-                arg.to_kwargs(), type_=get_type(cast("GraphQLNamedType", arg.type))
+                arg.to_kwargs(),
+                type_=get_type(cast("GraphQLNamedType", arg.type)),
+                default=copy_default_input(arg.default),
             )
             if mapper is not None:
                 mapped_arg = mapper(
@@ -329,7 +345,9 @@ def map_schema_config(
         field: GraphQLInputField, input_field_name: str, input_object_type_name: str
     ) -> GraphQLInputField:
         mapped_config = merge_kwargs(
-            field.to_kwargs(), type_=get_type(cast("GraphQLNamedType", field.type))
+            field.to_kwargs(),
+            type_=get_type(cast("GraphQLNamedType", field.type)),
+            default=copy_default_input(field.default),
         )
         mapper = config_mapper_map.get(SchemaElementKind.INPUT_FIELD)
         if mapper is not None:
